@@ -75,3 +75,13 @@ package parse
 //@   loop 1 invariant [self-kept] (*specs)[old(len(*specs))].src.filename == old(retrieved.l[fileNameToIndex(filename)].src.src.filename)
 //@   loop 1 invariant [first-import-second] rangeindex >= 0 && firstImportIsNew(specs, filename, retrieved) ==> len(*specs) >= old(len(*specs)) + 2 && (*specs)[old(len(*specs))+1].src.filename == old(retrieved.l[fileNameToIndex(retrieved.l[fileNameToIndex(filename)].imports[0].filename)].src.src.filename)
 //@   loop 1 invariant [prefix-kept] forall(i, 0, old(len(*specs)), (*specs)[i].src.filename == old((*specs)[i].src.filename))
+
+// ---- C06 / C09: the foreign-import fan-out and the per-file loop of parseSpecs
+
+// goroutine body: a failed foreign import is returned to the errgroup (never swallowed)
+//@ func (*Parser).parseSpecs$1
+//@   errprop parse.importForeign
+
+// g.Wait() failing, a compiled-model merge failing or a syntax error all end the compile with (nil, err)
+//@ func (*Parser).parseSpecs
+//@   errprop-nil Group).Wait mergo.Merge parse.parseString
